@@ -512,7 +512,7 @@ fn check_fresh_twin(res: &mut HRes, live: &Arc<FixtureDatabase>, log: &[(String,
         let class = if mentions_dropped {
             "RC-UNPARSABLE-DROPS-IMPORTS"
         } else if key.starts_with("available ") || key.starts_with("cycles ") {
-            "RC-NO-INVALIDATE"
+            "history-cached-answer-stale"
         } else {
             "history-answer-differs"
         };
@@ -614,12 +614,13 @@ fn check_cold_twin(res: &mut HRes, live: &Arc<FixtureDatabase>, log: &[(String, 
         if y == "<absent>" && x.is_empty() {
             continue;
         }
+        // mechanism hints (the root causes of these names are repaired; a returning violation keeps the label)
         let class = if (key.starts_with("available ") || key.starts_with("goto ") || key.starts_with("refs ") || key == "unused") && uncached_conftest {
-            "RC-CLOSE-HIDES-IMPORTS"
+            "warm-differs-after-close-or-eviction"
         } else if key.starts_with("available ") && has_import_cycle {
-            "RC-IMPORT-MEMO-TRUNCATED"
+            "warm-differs-on-import-cycle"
         } else if key.starts_with("available ") || key.starts_with("cycles ") || key.starts_with("goto ") || key.starts_with("refs ") || key == "unused" {
-            "RC-NO-INVALIDATE"
+            "warm-answer-stale"
         } else {
             "warm-answer-differs"
         };
